@@ -320,10 +320,19 @@ func RunBatch(cfg BatchConfig) int {
 			return 2
 		}
 		fmt.Printf("violation class=%s index=%d at=%d: %s\n", min.Expect.Class, firstUnknown.Index, min.Expect.At, min.Expect.Detail)
+		var others []string
 		for c, n := range total.ClassCount {
 			if known.Known(id, c) == nil && c != firstUnknown.V.Class {
-				fmt.Printf("also: class=%s in %d scenarios\n", c, n)
+				others = append(others, fmt.Sprintf("also: class=%s in %d scenarios", c, n))
 			}
+		}
+		sort.Strings(others)
+		for i, o := range others {
+			if i == 8 {
+				fmt.Printf("also: ... %d more classes\n", len(others)-8)
+				break
+			}
+			fmt.Println(o)
 		}
 		fmt.Printf("VIOLATION property=%s replay=%s\n", id, replayPath)
 		exit = 1
